@@ -386,6 +386,40 @@ struct ReplayFile<C> {
     origin: String,
 }
 
+/// A failure that only shows after a particular sequence of earlier cases on the same
+/// thread (state kept by the code under test): the whole window is the replay unit.
+#[derive(Serialize, Deserialize)]
+struct HistoryFile<C> {
+    property: String,
+    history: Vec<C>,
+    #[serde(default)]
+    failures: Vec<(String, String)>,
+    #[serde(default)]
+    origin: String,
+}
+
+const HISTORY_WINDOW: usize = 64;
+
+/// Evaluate a sequence of cases in order on a fresh thread; returns the failures
+/// (not open known findings) of the first failing case, with its index.
+fn eval_history<P: Prop>(prop: &Arc<P>, known: &KnownFindings, hist: &[P::Case]) -> Option<(usize, Vec<Failure>)> {
+    let prop = prop.clone();
+    let known = known.clone();
+    let hist: Vec<P::Case> = hist.to_vec();
+    std::thread::spawn(move || {
+        install_silent_panic_hook();
+        for (i, c) in hist.iter().enumerate() {
+            let real = eval_case(&*prop, &known, c, None);
+            if !real.is_empty() {
+                return Some((i, real));
+            }
+        }
+        None
+    })
+    .join()
+    .unwrap_or(None)
+}
+
 struct Violation {
     replay: PathBuf,
     sigs: Vec<String>,
@@ -515,6 +549,23 @@ pub fn run_prop<P: Prop>(prop: P, opts: &Opts) -> ! {
                 std::process::exit(2)
             }
         };
+        if let Ok(hf) = serde_json::from_str::<HistoryFile<P::Case>>(&s) {
+            println!("replay {} property={id} (history of {} cases, evaluated in order on a fresh thread)", path.display(), hf.history.len());
+            match eval_history(&prop, &known, &hf.history) {
+                Some((i, real)) => {
+                    println!("case #{i} of the history fails: {}", serde_json::to_string(&hf.history[i]).unwrap_or_default());
+                    for f in &real {
+                        println!("FAIL [{}] {}", f.sig, f.detail);
+                    }
+                    println!("VIOLATION property={id} replay={}", path.display());
+                    std::process::exit(1);
+                }
+                None => {
+                    println!("replay passed");
+                    std::process::exit(0);
+                }
+            }
+        }
         let rf: ReplayFile<P::Case> = match serde_json::from_str(&s) {
             Ok(r) => r,
             Err(e) => {
@@ -671,18 +722,22 @@ pub fn run_prop<P: Prop>(prop: P, opts: &Opts) -> ! {
     let per = cases.div_ceil(jobs);
     let mut handles = Vec::new();
     let found = Arc::new(Mutex::new(Vec::<(P::Case, Vec<Failure>, String)>::new()));
+    let found_hist = Arc::new(Mutex::new(Vec::<(Vec<P::Case>, Vec<Failure>, String)>::new()));
     for w in 0..jobs {
         let prop = prop.clone();
         let known = known.clone();
         let tier = opts.tier;
         let seed = splitmix(opts.seed ^ splitmix(str_hash(id)) ^ splitmix(w.wrapping_mul(0x1234567)));
         let found = found.clone();
+        let found_hist = found_hist.clone();
         handles.push(std::thread::spawn(move || {
             install_silent_panic_hook();
             let strat = prop.strategy(tier);
             let stats = RefCell::new(Stats::default());
             let failed = std::cell::Cell::new(false);
             let invocations = std::cell::Cell::new(0u64);
+            let window: RefCell<std::collections::VecDeque<P::Case>> = RefCell::new(std::collections::VecDeque::with_capacity(HISTORY_WINDOW + 1));
+            let first_history: RefCell<Vec<P::Case>> = RefCell::new(Vec::new());
             let cfg = Config {
                 cases: per as u32,
                 rng_seed: RngSeed::Fixed(seed),
@@ -699,6 +754,13 @@ pub fn run_prop<P: Prop>(prop: P, opts: &Opts) -> ! {
                     tick();
                 }
                 debug_set_current(w, || serde_json::to_string(&case).unwrap_or_default());
+                if !failed.get() {
+                    let mut wd = window.borrow_mut();
+                    if wd.len() == HISTORY_WINDOW {
+                        wd.pop_front();
+                    }
+                    wd.push_back(case.clone());
+                }
                 let r = catch(|| {
                     if failed.get() {
                         // shrinking: do not count
@@ -720,6 +782,9 @@ pub fn run_prop<P: Prop>(prop: P, opts: &Opts) -> ! {
                 if real.is_empty() {
                     Ok(())
                 } else {
+                    if !failed.get() {
+                        *first_history.borrow_mut() = window.borrow().iter().cloned().collect();
+                    }
                     failed.set(true);
                     Err(TestCaseError::fail(real[0].sig.clone()))
                 }
@@ -728,7 +793,29 @@ pub fn run_prop<P: Prop>(prop: P, opts: &Opts) -> ! {
                 Ok(()) => {}
                 Err(TestError::Fail(_, min_case)) => {
                     let real = eval_case(&*prop, &known, &min_case, None);
-                    found.lock().unwrap().push((min_case, real, format!("generated seed={seed} worker={w}")));
+                    let mut hist: Vec<P::Case> = Vec::new();
+                    if real.is_empty() {
+                        // not reproducible on its own: does the window of preceding cases reproduce it?
+                        let h = first_history.borrow().clone();
+                        if let Some((i, hreal)) = eval_history(&prop, &known, &h) {
+                            hist = h[..=i].to_vec();
+                            // greedy reduction: drop earlier cases that are not needed for the last one to fail
+                            let mut k = 0;
+                            while hist.len() > 1 && k < hist.len() - 1 {
+                                let mut t = hist.clone();
+                                t.remove(k);
+                                match eval_history(&prop, &known, &t) {
+                                    Some((j, _)) if j == t.len() - 1 => hist = t,
+                                    _ => k += 1,
+                                }
+                            }
+                            let hreal = eval_history(&prop, &known, &hist).map(|r| r.1).unwrap_or(hreal);
+                            found_hist.lock().unwrap().push((hist.clone(), hreal, format!("generated seed={seed} worker={w} (history-dependent)")));
+                        }
+                    }
+                    if hist.is_empty() {
+                        found.lock().unwrap().push((min_case, real, format!("generated seed={seed} worker={w}")));
+                    }
                 }
                 Err(TestError::Abort(r)) => {
                     println!("INCONCLUSIVE: proptest aborted: {r}");
@@ -760,6 +847,26 @@ pub fn run_prop<P: Prop>(prop: P, opts: &Opts) -> ! {
                 std::process::exit(2);
             }
         }
+    }
+    for (hist, real, origin) in found_hist.lock().unwrap().drain(..) {
+        let dir = opts.root.join("replays").join(id);
+        let _ = std::fs::create_dir_all(&dir);
+        let path = dir.join(format!("history-{:016x}.json", case_hash(&hist)));
+        let n = hist.len();
+        let hf = HistoryFile {
+            property: id.to_string(),
+            history: hist,
+            failures: real.iter().map(|f| (f.sig.clone(), f.detail.clone())).collect(),
+            origin,
+        };
+        let _ = std::fs::write(&path, serde_json::to_string_pretty(&hf).unwrap());
+        for f in real.iter().take(2) {
+            print_fail(f);
+        }
+        println!("  the failure depends on the preceding cases on the same thread: the replay file holds the sequence of {n} cases");
+        let mut sigs: Vec<String> = real.iter().map(|f| f.sig.clone()).collect();
+        sigs.push(format!("{id}/history-dependent"));
+        violations.push(Violation { replay: path, sigs });
     }
     for (c, real, origin) in found.lock().unwrap().drain(..) {
         if real.is_empty() {
